@@ -16,17 +16,17 @@ LEVEL_TEXT = ('Partial. Coq theorems over R: tau of project_to_boundary_with_coe
               'Hessian oracle and positive preconditioner oracle, both inner-product modes: model value never increases, is <= the model value of '
               'every step along the Cauchy direction inside the region, tag interior => Newton residual < cgTolSquared; Euclidean mode: |z|<=Delta '
               'and =Delta when tagged boundary/neg curve; dogleg_step is on the path 0->cp->np and inside the radius in the mat_mul norm; '
-              'More-Sorensen sufficiency lemma; treigen hard case as written REFUTED with an explicit witness (finding F2). '
+              'More-Sorensen sufficiency lemma; treigen hard case (as repaired by repo commit 5a997d7, findings F2/F2d fixed): step on the boundary and optimal up to 2|tau|eps*Delta under eigen hypotheses; binary64 witnesses for the open findings F2b (zero Hessian -> NaN) and F2c (uncapped secular loop stalls). '
               'Not proved (tested by correspondence/L2 only): radius in the preconditioned inner product (needs CG conjugacy), '
               'optimality of the interior/secular branches of treigen.solve under an eigh contract, EquationSolverSubspace.trust_region_cg beyond its tau kernel, '
               'the Cauchy clause for the 0-iteration early return.')
-TECHNIQUE = 'Coq proof (Reals, nra/lra, Interval for the refutation witness) on generated scalar kernels + hand models; vm_compute/PrimFloat correspondence'
+TECHNIQUE = 'Coq proof (Reals, nra/lra) on generated scalar kernels + hand models; vm_compute/PrimFloat correspondence and binary64 witnesses'
 GEN = ['EquationSolver', 'EquationSolverSubspace']
 TARGETS = ['model/M_C06_Vec.vo', 'model/M_C06_CG.vo', 'model/M_C06_Treigen.vo', 'proofs/L_C06_Vec.vo', 'proofs/L_C06_CG.vo',
            'proofs/L_C06_Dogleg.vo', 'proofs/L_C06_Treigen.vo']
 COQ_FILES = ['base/Num.v', 'model/M_C06_Vec.v', 'model/M_C06_CG.v', 'model/M_C06_Treigen.v', 'proofs/L_C06_Vec.v', 'proofs/L_C06_CG.v',
              'proofs/L_C06_Dogleg.v', 'proofs/L_C06_Treigen.v', 'props/P_C06.v']
-TRUSTED = ['Coq 8.16.1 kernel + vm_compute (no native_compute); Interval tactic (PrimFloat primitives) for the refutation witness',
+TRUSTED = ['Coq 8.16.1 kernel + vm_compute (no native_compute)',
            'tools/vlib/py2coq.py translator for the scalar kernels (cross-checked at binary64 against the implementation)',
            'hand models model/M_C06_CG.v, M_C06_Treigen.v tied only by the correspondence (tags, iteration counts exact; vectors within stated tolerance)',
            'harness: float<->(mantissa,exponent) exchange, near-tie rule (relative margin < 1e-9 of a branch comparison => discrete data not compared), reference optimum for treigen',
@@ -748,6 +748,8 @@ def finding_fails(ctx, f):
     bad = concl_treigen(c, o)
     if f.get('id') == 'F2':
         return o['branch'] == 'hard' and any('not a minimiser' in b for b in bad)
+    if f.get('id') == 'F2d':
+        return bool(bad)
     if f.get('id') == 'F2b':
         return any('non-finite' in b for b in bad)
     if f.get('id') == 'F2c':
